@@ -40,10 +40,10 @@ void *memcpy(void *d, const void *s, u64 n) {
   return d;
 }
 
-#define MAXSCRIPT (8 << 20)
+#define MAXSCRIPT (96 << 20)
 static char *script;
 static long slen;
-static char *strs[4096];
+static char *strs[1 << 17];
 static int nstr;
 static char *arena, *arena_end; // bump allocator inside one mapping
 static char *guard;             // PROT_NONE page
@@ -169,18 +169,24 @@ static const char *skip_block(const char *p) { // p is after an F/V/T line: retu
   return p;
 }
 
-static void run(const char *p, int sub);
+static void run(const char *p, int sub, long line);
 
 static int thread_start(void *arg) {
-  run((const char *)arg, 2);
+  long *a = arg;
+  run((const char *)a[0], 2, a[1]);
   return 0;
 }
 
-static void run(const char *p, int sub) { // sub: 0 main, 1 process sub-script, 2 thread sub-script
-  while (*p) {
-    long line = 0;
-    { // line number = count of newlines before p (only needed for X; computed lazily below)
-    }
+static long count_lines(const char *from, const char *to) {
+  long n = 0;
+  for (; from < to; from++)
+    if (*from == '\n') n++;
+  return n;
+}
+
+// line = number of the line p points at (1-based)
+static void run(const char *p, int sub, long line) { // sub: 0 main, 1 process sub-script, 2 thread sub-script
+  for (; *p; line++) {
     char op = *p;
     const char *a = p + 1;
     while (*a == ' ') a++;
@@ -204,14 +210,12 @@ static void run(const char *p, int sub) { // sub: 0 main, 1 process sub-script, 
       break;
     }
     case 'X': {
-      for (const char *q = script; q < p; q++)
-        if (*q == '\n') line++;
       i64 v[7] = {0, 0, 0, 0, 0, 0, 0};
       for (int i = 0; i < 7 && *a && *a != '\n'; i++) {
         v[i] = parse_arg(a, &a);
         while (*a == ' ') a++;
       }
-      logret(line + 1, sc6(v[0], v[1], v[2], v[3], v[4], v[5], v[6]));
+      logret(line, sc6(v[0], v[1], v[2], v[3], v[4], v[5], v[6]));
       break;
     }
     case 'F':
@@ -219,10 +223,12 @@ static void run(const char *p, int sub) { // sub: 0 main, 1 process sub-script, 
       const char *body = next_line(p);
       i64 pid = op == 'F' ? SC(NR_fork, 0, 0, 0) : SC(NR_vfork, 0, 0, 0);
       if (pid == 0) {
-        run(body, 1);
+        run(body, 1, line + 1);
         SC(NR_exit_group, 0, 0, 0);
       }
-      p = skip_block(body);
+      const char *np = skip_block(body);
+      line += count_lines(p, np) - 1;
+      p = np;
       continue;
     }
     case 'J': {
@@ -236,7 +242,10 @@ static void run(const char *p, int sub) { // sub: 0 main, 1 process sub-script, 
       char *stack = (char *)sc6(NR_mmap, 0, 1 << 16, 3, 0x22, -1, 0);
       // CLONE_VM|FS|FILES|SIGHAND|THREAD|SYSVSEM
       u64 *top = (u64 *)(stack + (1 << 16));
-      *--top = (u64)body;
+      long *targ = alloc(16);
+      targ[0] = (long)body;
+      targ[1] = line + 1;
+      *--top = (u64)targ;
       *--top = (u64)thread_start;
       i64 ret;
       __asm__ volatile("syscall\n\t"
@@ -252,7 +261,9 @@ static void run(const char *p, int sub) { // sub: 0 main, 1 process sub-script, 
                        : "=a"(ret)
                        : "a"(NR_clone), "D"(0x50f00L), "S"(top), "d"(0)
                        : "rcx", "r11", "memory", "r10", "r8", "r9");
-      p = skip_block(body);
+      const char *np = skip_block(body);
+      line += count_lines(p, np) - 1;
+      p = np;
       continue;
     }
     case 'E':
@@ -294,7 +305,7 @@ void _start_c(void) {
     slen += n;
   }
   script[slen] = 0;
-  run(script, 0);
+  run(script, 0, 1);
   SC(NR_exit_group, 0, 0, 0);
 }
 
